@@ -86,4 +86,20 @@ REG = {
   note="Trusted: TLC, state projection through Resolve(`this`), Get and the caller's own maps.",
   technique="TLA+ state-machine specification model-checked with TLC; exhaustive history replay + TLC trace validation of recorded histories",
   design="DESIGN.md section 4/C20"),
+ "C13": dict(
+  text="A reference escaper in TLA+ (MC_Strings) writes every character in each of its equivalent forms; TLC checks the "
+       "round-trip theorem DecodeString(Escape(t, choices, quote)) = t and 'open literal => lexical error' as an invariant over "
+       "all texts <= 3 characters over a 20-character alphabet x all choice vectors x both quotes x {closed, open} (1.8 M "
+       "literals); each literal is replayed into the real scanner, parser and evaluator.",
+  note="Trusted: TLC, UTF-8 Encode/Decode of FChars. Malformed / unknown escapes are unpinned.",
+  technique="TLA+ lexical specification with a reference escaper, theorem model-checked by TLC; exhaustive replay into scanner, parser, evaluator",
+  design="DESIGN.md section 4/C13"),
+ "C15": dict(
+  text="FGrammar.Spans gives every node its token span; TLC checks RangesNest and SubtextReparses on every accepted sequence, "
+       "FLines defines line starts and (line, column) by direct count with LineColMonotone / LineColInverse checked on every "
+       "text x offset; replay compares every real node's (pos, end) under varied trivia, re-parses every node's text, and the three "
+       "offset helpers; recorded rejections are validated by Trace_Parse (error shape = LineCol of the first diagnostic).",
+  note="Trusted: TLC, the driver's rendering offsets. Diagnostic placement and messages are unpinned.",
+  technique="TLA+ grammar/line specification model-checked with TLC; exhaustive replay + TLC trace validation of recorded parses",
+  design="DESIGN.md section 4/C15"),
 }
